@@ -13,8 +13,11 @@ MUT = {
     "arr": "x=(1 2 3)", "assoc": "declare -A m=([k]=v)", "fdef": "newf() { :; }", "fundef": "unset -f g", "sete": "set -e", "setu": "set -u", "pipefail": "set -o pipefail", "noglob": "set -f",
     "nullglob": "shopt -s nullglob", "extglob": "shopt -s extglob", "alias": "alias na=nb", "unalias": "unalias b", "trapusr": "trap 'echo t' USR1", "trapexit": "trap 'echo bye' EXIT", "trapdbg": "trap ': dbg' DEBUG",
     "cd": "cd /", "umask": "umask 077", "ulimit": "ulimit -f 2000000", "setargs": "set -- changed", "shift": "shift", "exec3": "exec 3>../f3", "exec2": "exec 2>/dev/null", "execin": "exec </dev/null",
-    "pushd": "pushd / >/dev/null", "hashr": "hash -p /bin/true mycmd", "exit": "exit 3",
+    "pushd": "pushd / >/dev/null", "hashr": "hash -p /bin/true mycmd", "exit": "exit 3", "expasg": ": ${newv:=set}", "exparith": ": $((x+=5))",
 }
+# the ext* contexts run ONE external command in the subshell context; the mutations are the side effects of expanding its words
+# (mutators without an expansion form contribute nothing there: the model still says the parent is unchanged)
+EXPFORM = {"expasg": "${newv:=set}", "exparith": "$((x+=5))", "asg": "${newv2:=changed}", "optind": "$((OPTIND=7))", "shift": ">/dev/null$((y+=1))"}
 SECTIONS = ["vars", "funcs", "opts", "shopts", "aliases", "traps", "cwd", "umask", "ulimit", "args", "fds", "dirs", "hash"]
 VOLATILE = r"^declare -[-A-Za-z]* (BASH_COMMAND|LINENO|RANDOM|SRANDOM|SECONDS|_|BASHPID|EPOCHSECONDS|EPOCHREALTIME|FUNCNAME|BASH_ARGC|BASH_ARGV|BASH_LINENO|BASH_SOURCE|PIPESTATUS|BASH_SUBSHELL|COMP_WORDBREAKS|BASH_ARGV0|__s|__l)\b"
 HEAD = r'''D() {
@@ -53,6 +56,11 @@ def wrap(ctx, body):
 
 def script(case):
     body = "; ".join(MUT[m] for m in case["muts"])
+    if case["ctx"].startswith("ext"):
+        args = " ".join(EXPFORM[m] for m in case["muts"] if m in EXPFORM)
+        ext = "/bin/true " + args
+        w = {"extfirst": ext + " | cat >/dev/null", "extlast": "true | " + ext, "extbg": ext + " & wait", "extcs": ': "$(' + ext + ')"'}[case["ctx"]]
+        return "cd w || exit 9\n" + HEAD + 'D warm "$@"\n: > ../dump\nD before "$@"\n' + w + ' 2>/dev/null\nD after "$@"\n'
     pre, w = "", wrap(case["ctx"], body)
     if case["ctx"] == "funcsub":
         pre, w = "h() ( %s )\n" % body, "h"          # defining h is the parent's own doing: it happens before the first dump
